@@ -82,7 +82,7 @@ func decodeFunctionNames(r *bytes.Reader) (wasm.NameMap, error) {
 		return nil, err
 	}
 
-	result := make(wasm.NameMap, functionCount)
+	result := make(wasm.NameMap, vectorCap(functionCount, r))
 	for i := uint32(0); i < functionCount; i++ {
 		functionIndex, err := decodeFunctionIndex(r, subsectionIDFunctionNames)
 		if err != nil {
@@ -93,7 +93,7 @@ func decodeFunctionNames(r *bytes.Reader) (wasm.NameMap, error) {
 		if err != nil {
 			return nil, err
 		}
-		result[i] = wasm.NameAssoc{Index: functionIndex, Name: name}
+		*elementAt((*[]wasm.NameAssoc)(&result), i) = wasm.NameAssoc{Index: functionIndex, Name: name}
 	}
 	return result, nil
 }
@@ -104,7 +104,7 @@ func decodeLocalNames(r *bytes.Reader) (wasm.IndirectNameMap, error) {
 		return nil, err
 	}
 
-	result := make(wasm.IndirectNameMap, functionCount)
+	result := make(wasm.IndirectNameMap, vectorCap(functionCount, r))
 	for i := uint32(0); i < functionCount; i++ {
 		functionIndex, err := decodeFunctionIndex(r, subsectionIDLocalNames)
 		if err != nil {
@@ -116,7 +116,7 @@ func decodeLocalNames(r *bytes.Reader) (wasm.IndirectNameMap, error) {
 			return nil, fmt.Errorf("failed to read the local count for function[%d]: %w", functionIndex, err)
 		}
 
-		locals := make(wasm.NameMap, localCount)
+		locals := make(wasm.NameMap, vectorCap(localCount, r))
 		for j := uint32(0); j < localCount; j++ {
 			localIndex, _, err := leb128.DecodeUint32(r)
 			if err != nil {
@@ -127,9 +127,9 @@ func decodeLocalNames(r *bytes.Reader) (wasm.IndirectNameMap, error) {
 			if err != nil {
 				return nil, err
 			}
-			locals[j] = wasm.NameAssoc{Index: localIndex, Name: name}
+			*elementAt((*[]wasm.NameAssoc)(&locals), j) = wasm.NameAssoc{Index: localIndex, Name: name}
 		}
-		result[i] = wasm.NameMapAssoc{Index: functionIndex, NameMap: locals}
+		*elementAt((*[]wasm.NameMapAssoc)(&result), i) = wasm.NameMapAssoc{Index: functionIndex, NameMap: locals}
 	}
 	return result, nil
 }
